@@ -99,6 +99,9 @@ ALPHABET = [
     C('configure -Dsub:o=o1', 'configure', [('sub:o', 'o1')]),
     C('configure -Dsub:warning_level=3', 'configure', [('sub:warning_level', '3')]),
     C('configure -Dsub:default_library=static', 'configure', [('sub:default_library', 'static')], tiers='t'),
+    # colliding values: an override equal to the value it overrides (dropping it later changes nothing *now*)
+    C('configure -Dsub:warning_level=3 -Dwarning_level=3', 'configure', [('sub:warning_level', '3'), ('warning_level', '3')]),
+    C('configure -Dsub:s=t1 -Ds=t1', 'configure', [('sub:s', 't1'), ('s', 't1')]),
     C('configure -Usub:warning_level', 'configure', U=['sub:warning_level']),
     C('configure -Usub:s', 'configure', U=['sub:s']),
     C('setup -Ds=s2', 'setup', [('s', 's2')], tiers='t'),
